@@ -66,7 +66,8 @@ def _sites(tier):
 
 
 def _file(sites):
-    out = ["from inline_snapshot import snapshot\n\n"]
+    out = ["from inline_snapshot import snapshot\n\n\nclass BadRepr:\n    def __eq__(self, other):\n        return isinstance(other, BadRepr)\n    def __repr__(self):\n        raise RuntimeError('no repr')\n\n\n"
+           "def test_000_bad_repr():\n    try:\n        assert BadRepr() == snapshot()\n    except Exception:\n        pass\n\n"]
     G = 25  # sites per test function: keeps pytest's per-test overhead out of the cold processes
     for g in range(0, len(sites), G):
         out.append("\ndef test_%d():\n" % (g // G))
@@ -113,6 +114,7 @@ def run_task(task):
     except SyntaxError as e:
         out["violations"].append({"case": task, "what": "unparsable", "detail": str(e)})
         return out
+    calls = calls[1:]  # the first call belongs to the BadRepr prelude test
     if len(calls) != len(sites):
         out["violations"].append({"case": task, "what": "call-count-changed", "detail": "%d vs %d" % (len(calls), len(sites))})
         return out
